@@ -133,7 +133,7 @@ def run(tier, seed):
     djsetup.patch_ids()
     chk = C.Check("C01", tier, seed)
     chk.prove()
-    n = 2500 if tier == "thorough" else 350
+    n = 6000 if tier == "thorough" else 1000
     check_programs(chk, corpus_programs(), "corpus")
     for mode in ("isolated", "django"):
         check_programs(chk, list(gen_programs(chk, n, mode, seed)), mode[:3])
